@@ -452,8 +452,23 @@ func c07LongRun(x *explore.Ctx, readerIsServer bool, pat int, tier string) {
 	nc := netsim.NewConn(stream)
 	nc.NoReadLog = true
 	c := websocket.VerifNewConn(nc, readerIsServer, 0, 0, nil, false)
-	c.SetPingHandler(func(string) error { return nil })
+	// stack depth seen from inside the handlers: a per-frame recursion (which heap counters do not
+	// show) makes it grow with the number of frames
+	maxDepth, calls := 0, 0
+	var pcs [512]uintptr
+	depth := func(string) error {
+		if calls++; calls%997 == 0 || calls < 4 {
+			if d := runtime.Callers(0, pcs[:]); d > maxDepth {
+				maxDepth = d
+			}
+		}
+		return nil
+	}
+	c.SetPingHandler(depth)
+	c.SetPongHandler(depth)
 	msgs, bytesGot := 0, 0
+	var stack0, stack1 runtime.MemStats
+	runtime.ReadMemStats(&stack0)
 	alloc := memGuard(func() {
 		for {
 			_, r, err := c.NextReader()
@@ -471,5 +486,8 @@ func c07LongRun(x *explore.Ctx, readerIsServer bool, pat int, tier string) {
 	x.NonTrivial()
 	x.Obs("pattern=%d frames=%d messages=%d bytes=%d", pat, n, msgs, bytesGot)
 	x.Check(msgs <= n+1, "C07:long-run:no-progress", "read loop produced more messages than frames")
+	runtime.ReadMemStats(&stack1)
+	x.Check(maxDepth < 200, "C07:long-run:stack-depth", "a handler ran %d (or more) stack frames deep during a run of %d tiny frames: stack use grows with the number of frames received", maxDepth, n)
+	x.Check(stack1.StackInuse <= stack0.StackInuse+(32<<20), "C07:long-run:stack", "goroutine stacks grew from %d to %d bytes during a run of %d tiny frames (%d input bytes)", stack0.StackInuse, stack1.StackInuse, n, len(stream))
 	x.Check(alloc <= uint64(8<<20+64*len(stream)), "C07:long-run:allocation", "%d bytes allocated for a run of %d tiny frames (%d input bytes)", alloc, n, len(stream))
 }
